@@ -1,7 +1,8 @@
 /-
   C12 — evolve / assoc.  Mirrors `evolve` (src/attr/_make.py: collect current values of the init fields by
   alias unless overridden, then call the class) and `assoc` (src/attr/_funcs.py: shallow copy, raw
-  `object.__setattr__` per change, cached hash reset).  `evolve` is *defined* through the initializer model
+  `object.__setattr__` per change, cached hash reset).  Besides the values the model says which *object* each
+  field of the result holds (the one passed, the original's, another one).  `evolve` is *defined* through the initializer model
   of `Model/Init.lean`, so everything proved about construction applies to its result.
 -/
 import AttrsModel.Model.Init
@@ -11,6 +12,12 @@ open Attrs.Init Lean
 
 inductive Op where
   | evolve | assoc
+  deriving DecidableEq, Repr, FromJson, ToJson, Inhabited
+
+/-- which object a field of the result holds: the very object passed as the change, the very object the original
+    holds, some other object (e.g. a converter's result), or nothing -/
+inductive Ident where
+  | passed | orig | other | unset
   deriving DecidableEq, Repr, FromJson, ToJson, Inhabited
 
 structure Case where
@@ -34,6 +41,9 @@ structure Obs where
   /-- the result equals, and hashes like, an instance rebuilt from its own field values, and is frozen
       iff its class is -/
   invariants : Bool
+  /-- per judged field (evolve: the init fields; assoc: every field), in field order: which *object* the result
+      holds there (compared by identity with the object passed as the change and with the original's) -/
+  ident : List (String × Ident)
   deriving DecidableEq, Repr, FromJson, ToJson, Inhabited
 
 def curOf (cur : List (String × Option Val)) (n : String) : Option Val :=
@@ -58,8 +68,29 @@ def evolveCase (c : Case) : Init.Case :=
 def assocValues (cur : List (String × Option Val)) (changes : List (String × Val)) : List (String × Option Val) :=
   cur.map (fun (n, v) => (n, match lookup n changes with | some w => some w | none => v))
 
+/-- the object a stored field holds: a converter's result is a new object; without converter the initializer
+    (and `object.__setattr__`) store the argument itself — the change if there is one, else the original's -/
+def identOf (changed converted : Bool) (v : Option Val) : Ident :=
+  match v with
+  | none => .unset
+  | some _ => if converted then .other else if changed then .passed else .orig
+
+/-- `evolve`: every init field is an argument of the initializer call (by alias) -/
+def evolveIdent (attrs : List Attr) (changes : List (String × Val)) (values : List (String × Option Val)) :
+    List (String × Ident) :=
+  (attrs.zip values).filterMap (fun av =>
+    if av.1.init then some (av.1.name, identOf (changes.any (·.1 == av.1.alias)) av.1.conv.isSome av.2.2) else none)
+
+/-- `assoc`: a shallow copy (every field holds the original's object) with raw replacements by field name -/
+def assocIdent (cur : List (String × Option Val)) (changes : List (String × Val)) : List (String × Ident) :=
+  cur.map (fun kv => (kv.1, identOf (changes.any (·.1 == kv.1)) false
+    (match lookup kv.1 changes with | some w => some w | none => kv.2)))
+
 /-- K2: a frozen dict hash-caching class below a slotted hash-caching class initialises the cache in
-    `__dict__` while `__hash__` reads the (empty) slot: hashing any instance raises AttributeError. -/
+    `__dict__` while `__hash__` reads the (empty) slot: hashing an instance built by `__init__` (so also an
+    `evolve` result) raises AttributeError.  An `assoc` result is a copy: such a class has its own generated
+    `__setstate__` (it would otherwise inherit the slotted base's), which resets the cache with
+    `object.__setattr__`, i.e. in the slot — the copy hashes. -/
 def cacheMisplaced (r : RunIn) : Bool :=
   r.cfg.cacheHash && r.cfg.frozen && !r.cfg.slots && r.cacheIsSlot
 
@@ -67,18 +98,20 @@ def model (c : Case) : Obs :=
   match c.op with
   | .evolve =>
     if evolveMissing c.base.run.attrs c.cur c.changes then
-      { exc := some .attributeError, values := [], orig := c.cur, fresh := false, invariants := false }
+      { exc := some .attributeError, values := [], orig := c.cur, fresh := false, invariants := false, ident := [] }
     else
       let o := runInit (evolveCase c)
       match o.exc with
-      | some e => { exc := some e, values := [], orig := c.cur, fresh := false, invariants := false }
+      | some e => { exc := some e, values := [], orig := c.cur, fresh := false, invariants := false, ident := [] }
       | none => { exc := none, values := o.values, orig := c.cur, fresh := true,
                   -- eq/hash are only comparable when every field is set
-                  invariants := !(cacheMisplaced c.base.run && o.values.all (·.2.isSome)) }
+                  invariants := !(cacheMisplaced c.base.run && o.values.all (·.2.isSome)),
+                  ident := evolveIdent c.base.run.attrs c.changes o.values }
   | .assoc =>
     if c.changes.all (fun kv => c.cur.any (·.1 == kv.1)) then
       { exc := none, values := assocValues c.cur c.changes, orig := c.cur, fresh := true,
-        invariants := !(cacheMisplaced c.base.run && (assocValues c.cur c.changes).all (·.2.isSome)) }
-    else { exc := some .notFound, values := [], orig := c.cur, fresh := false, invariants := false }
+        invariants := true,
+        ident := assocIdent c.cur c.changes }
+    else { exc := some .notFound, values := [], orig := c.cur, fresh := false, invariants := false, ident := [] }
 
 end Attrs.C12
